@@ -308,6 +308,7 @@ static void scan_fd (int fd) {
 }
 
 void vx_scan_now (void) { if (cur && cur_fd >= 0) scan_fd (cur_fd); }
+void vx_detach (void) { cur = 0; cur_fd = -1; }
 
 void vx_child_exit (int code) {
   if (cur) {
